@@ -5,7 +5,9 @@ from __future__ import annotations
 from typing import TYPE_CHECKING, cast
 
 import sympy
-from sympy.printing import jscode, julia_code, rust_code
+from sympy.printing import jscode, julia_code
+from sympy.printing.codeprinter import CodePrinter
+from sympy.printing.rust import RustCodePrinter
 from sympy.printing.pycode import pycode
 
 from mxlpy.meta.source_tools import fn_to_sympy
@@ -78,12 +80,25 @@ def _integers_to_floats(expr: sympy.Expr) -> sympy.Expr:
     return cast(sympy.Expr, expr.func(*args))
 
 
+class _RustPrinter(RustCodePrinter):
+    """Rust printer that prints a product as it is.
+
+    sympy's ``RustCodePrinter._print_Mul`` multiplies the factors of a product
+    again before printing. That distributes a numeric coefficient over a sum and
+    the sum then loses its parentheses: ``0.25*(a + b)/c`` was emitted as
+    ``0.25*a + b*c.recip()``.
+    """
+
+    def _print_Mul(self, expr: sympy.Expr) -> str:
+        return CodePrinter._print_Mul(self, expr)  # noqa: SLF001
+
+
 def sympy_to_inline_rust(expr: sympy.Expr) -> str:
     """Create rust code from sympy expression."""
     expr = _integers_to_floats(expr)
     if getattr(expr, "is_Integer", False):
         expr = sympy.Float(expr)
-    return cast(str, rust_code(expr, full_prec=False))
+    return cast(str, _RustPrinter({"full_prec": False}).doprint(expr))
 
 
 def sympy_to_inline_julia(expr: sympy.Expr) -> str:
